@@ -281,6 +281,27 @@ def oracle(case: dict):
             if exp.parent != src.parent:
                 return ("parse-name", f"target {rel} is not in the source's directory")
             return None
+        if op == "fail-parse":
+            # the parse route: a source whose content the XML serialiser cannot express (a key that is no XML name), the
+            # derived target exists already (the result of an earlier run): the failure must leave everything as it was
+            src = root / ("casefile.json" if case["json"] else "casefile")
+            src.write_text('{"my key": 1, "ok": {"b c": 2, "fine": 3}}' if case["json"] else "7 seven;\nok { 8 eight; fine 3; }\n")
+            scope = ["ok"] if case["scoped"] else None
+            tgt = root / spec_target_name(src.name, "parsed", scope or [], "xml")
+            tgt.write_text("<r><precious>1</precious></r>")
+            (root / ("parsed." + src.name)).write_text("precious  1;\n")
+            before = snap(root)
+            raised = False
+            try:
+                dictIO.DictParser.parse(src, output="xml", mode=case["mode"], scope=scope)
+            except Exception:  # noqa: BLE001
+                raised = True
+            after = snap(root)
+            if not raised:
+                return None
+            if after != before:
+                return ("clobber", f"parse({src.name}, output='xml', mode={case['mode']!r}, scope={scope}) failed but the tree changed: {diff(before, after)}")
+            return None
         if op == "fail":
             fmt = case["fmt"]
             ext = {"native": "", "foam": ".foam", "json": ".json", "xml": ".xml", "xml-ns": ".xml"}[fmt]
@@ -424,6 +445,7 @@ def run(ctx):
                       "how": rng.choice(["removed", "cwd"]), "dump": rng.random() < 0.25})
         for fmt in ("native", "foam", "json", "xml", "xml-ns"):
             cases.append({"op": "fail", "seed": seed, "file": 0, "fmt": fmt})
+        cases.append({"op": "fail-parse", "seed": seed, "file": 0, "json": rng.random() < 0.5, "mode": rng.choice(["a", "w"]), "scoped": rng.random() < 0.5})
         cases.append({"op": "tostring", "seed": seed, "file": 0})
         combos = list(itertools.product((True, False), ("a", "w"), (True, False), (True, False), (None, "cpp", "foam", "xml", "json"), (None, ["nope"], [], ["<existing>"], ["<existing>"])))
         for inc, mode, order, com, out, scope in rng.sample(combos, 6 if ctx.tier == "quick" else 40):
